@@ -97,6 +97,12 @@ impl Number {
     /// converting the resulting BigRational into the most appropriate
     /// Number type.
     pub fn parse_rational(text: &str, radix: u32) -> Option<Number> {
+        // <ureal R> -> <uinteger R> / <uinteger R>: a denominator carries no sign
+        if let Some((_, denom)) = text.split_once('/') {
+            if denom.starts_with(['+', '-']) {
+                return None;
+            }
+        }
         match Rational32::from_str_radix(text, radix) {
             Ok(num) => {
                 if num.is_integer() {
